@@ -9,7 +9,7 @@ specialised per length, ASCII spellings):
              get_gender returns 'M' or 'F' (or None), get_birth_year/month an int (or None);
  C12.split   the parts returned by split() are the positions of the canonical number, in order,
              each exactly once."""
-from ..common import Report, rel
+from ..common import Report, rel, src
 from .. import scope
 from .c01 import registry_holds
 
@@ -18,6 +18,56 @@ KINDS = {
     'get_birth_year': {'int', 'None'},
     'get_birth_month': {'int', 'None'},
 }
+
+
+def int_cuts(fn):
+    """(subject text, cut, comparison) for every comparison of int(<expr>) with an integer constant: `x >= k` / `x < k` cut
+    the integers between k-1 and k, `x > k` / `x <= k` between k and k+1."""
+    import ast
+    out = []
+    for n in ast.walk(fn):
+        if not isinstance(n, ast.Compare):
+            continue
+        terms = [n.left] + list(n.comparators)
+        for l, op, r in zip(terms, n.ops, terms[1:]):
+            for subj, const, flip in ((l, r, False), (r, l, True)):
+                if isinstance(const, ast.Constant) and type(const.value) is int and isinstance(subj, ast.Call) and src(subj.func) == 'int':
+                    o = type(op).__name__
+                    if flip:
+                        o = {'Lt': 'Gt', 'LtE': 'GtE', 'Gt': 'Lt', 'GtE': 'LtE'}.get(o, o)
+                    c = {'Lt': const.value, 'GtE': const.value, 'LtE': const.value + 1, 'Gt': const.value + 1}.get(o)
+                    if c is not None:
+                        out.append((src(subj), c, n))
+    return out
+
+
+def thresholds(rep, prog):
+    """C12.threshold: a getter that splits a numeric field of the number at a constant splits it where validate() of the
+    same module does: the classes of values a getter distinguishes are unions of the classes validate() distinguishes
+    (be.bis: months 20..32 / 40..52 in validate(), gender known from 40 on)."""
+    n = 0
+    for mn in prog.number_modules():
+        m = prog.mods[mn]
+        if 'validate' not in m.funcs:
+            continue
+        vc = {}
+        for name, fn in m.funcs.items():
+            if name == 'validate' or name.startswith('_'):
+                for s_, c, _n in int_cuts(fn):
+                    vc.setdefault(s_, set()).add(c)
+        for name, fn in m.funcs.items():
+            if not (name.startswith('get_') or name == 'info'):
+                continue
+            for s_, c, node in int_cuts(fn):
+                if s_ not in vc:
+                    continue
+                n += 1
+                rep.check(c in vc[s_], 'C12.threshold', rel(m.path), name, src(node), node.lineno,
+                          '%s.%s() splits %s between %d and %d, validate() distinguishes this field only at %s: values on the wrong side of the '
+                          'getter\'s boundary are accepted by validate() but classified differently'
+                          % (mn.replace('stdnum.', ''), name, s_, c - 1, c, sorted('%d|%d' % (x - 1, x) for x in vc[s_])),
+                          what='%s.%s: %s cut at %d|%d' % (mn, name, s_, c - 1, c))
+    return n
 
 
 def check(tier):
@@ -91,6 +141,8 @@ def check(tier):
                 else:
                     rep.undecide('C12.split', '%s:%d' % (file, line), scope.C04_UNDECIDED.get(mn, 'split result is not a tuple of fixed-length strings'))
     rep.unit('functions', nfun)
+    if thresholds(rep, prog) < 1:
+        rep.error('C12.threshold matched no getter threshold (be.bis.get_gender confirmed on the reference tree)')
     rep.expect_at_least('C12.total', 60, 'getter functions')
     rep.not_decided = ['that a returned date equals what the digits mean', 'functions with more than one required parameter'] + \
                       ['%s: %s' % kv for kv in sorted(scope.C12_UNDECIDED_SINKS.items())]
